@@ -6,4 +6,6 @@ import Calc.Props.C16
 #print axioms Calc.C16_exit
 #print axioms Calc.C16_line_isolation
 #print axioms Calc.C16_tabsize
+#print axioms Calc.C16_parse_positions
+#print axioms Calc.C16_tabsize_statements
 #print axioms Calc.C16_tabsize_field
